@@ -66,7 +66,7 @@ Theorem C14_sympy2ast_vars : forall (g : genv) (e : sexpr) (t : Ast.term), sympy
 Proof. exact (@MathSpec.sympy2ast_vars). Qed.
 Print Assumptions C14_sympy2ast_vars.
 
-Theorem C14_to_sympy_term_sound : forall (s : subst) (sg : skey -> Z) (t : Ast.term) (st : tstate) (e : sexpr) (st' : tstate) (v : Z), to_sympy_term t st = Ast.Ok (Some e, st') -> vars_agree s sg t -> divs_nonneg s t -> eval s t = Some (Ast.SNum v) -> exists q : QArith_base.Q, seval sg e = Some q /\ QArith_base.Qeq q (QArith_base.inject_Z v).
+Theorem C14_to_sympy_term_sound : forall (s : subst) (sg : skey -> Z) (t : Ast.term) (st : tstate) (e : sexpr) (st' : tstate) (v : Z), to_sympy_term t st = Ast.Ok (Some e, st') -> vars_agree s sg t -> divs_nonneg s t -> pows_nonneg s t -> eval s t = Some (Ast.SNum v) -> exists q : QArith_base.Q, seval sg e = Some q /\ QArith_base.Qeq q (QArith_base.inject_Z v).
 Proof. exact (@MathSpec.to_sympy_term_sound). Qed.
 Print Assumptions C14_to_sympy_term_sound.
 
@@ -77,6 +77,10 @@ Print Assumptions C14_div_negative_refuted.
 Theorem C14_mod_negative_refuted : value_is (Ast.TBin Ast.BMod (Ast.TBin Ast.BMinus (Ast.TSym (Ast.SNum 0)) (Ast.TSym (Ast.SNum 7))) (Ast.TSym (Ast.SNum 2))) (-1) 1.
 Proof. exact (@MathSpec.mod_negative_refuted). Qed.
 Print Assumptions C14_mod_negative_refuted.
+
+Theorem C14_pow_negative_refuted : let t := Ast.TBin Ast.BPow (Ast.TSym (Ast.SNum 2)) (Ast.TBin Ast.BMinus (Ast.TSym (Ast.SNum 0)) (Ast.TSym (Ast.SNum 1))) in eval s0 t = Some (Ast.SNum 0) /\ divs_nonneg s0 t /\ vars_agree s0 sg0 t /\ ~ pows_nonneg s0 t /\ (exists (e : sexpr) (st : tstate) (q : QArith_base.Q), to_sympy_term t ([], []) = Ast.Ok (Some e, st) /\ seval sg0 e = Some q /\ QArith_base.Qeq_bool q {| QArith_base.Qnum := 1; QArith_base.Qden := 2 |} = true).
+Proof. exact (@MathSpec.pow_negative_refuted). Qed.
+Print Assumptions C14_pow_negative_refuted.
 
 Theorem C14_sumplus_scaling_refuted : sumplus_of ((Ast.SNum (1 * -1) :: nil) :: nil) <> (-1 * sumplus_of ((Ast.SNum 1 :: nil) :: nil))%Z.
 Proof. exact (@MathSpec.sumplus_scaling_refuted). Qed.
